@@ -291,6 +291,44 @@ impl Holder {
     }
 }
 
+/// newtype (tuple struct with one component, listed under `tuple_structs`), `copy_from_slice` into a range and into
+/// the tail, array length by literal arithmetic, by-value `self`
+pub struct ChanId(pub Vec<u8>);
+
+impl ChanId {
+    pub fn from_parts(peer: &[u8], oid: u64) -> Self {
+        let mut nonce = [0u8; 4 + 8];
+        nonce[0..4].copy_from_slice(peer);
+        nonce[4..].copy_from_slice(&oid.to_le_bytes());
+        Self(nonce.to_vec())
+    }
+    pub fn oid(&self) -> u64 {
+        let n = self.0.len();
+        u64::from_le_bytes(self.0[n - 8..].try_into().unwrap())
+    }
+    pub fn into_len(self) -> usize {
+        self.0.len() << 2 * 1
+    }
+}
+
+/// `lock()` inside an expression and through a helper that returns the guard (read-only use)
+pub struct Guarded {
+    pub st: std::sync::Mutex<Acc>,
+}
+
+impl Guarded {
+    fn get(&self) -> std::sync::MutexGuard<'_, Acc> {
+        self.st.lock().expect("lock")
+    }
+    pub fn height_plus(&self, d: u32) -> u32 {
+        let s = self.get();
+        s.height + d
+    }
+    pub fn total(&self) -> u64 {
+        self.st.lock().unwrap().total
+    }
+}
+
 /// default method of a trait: the required methods are explicit parameters of the generated definition
 pub trait Pricing {
     fn base(&self) -> u64;
